@@ -517,6 +517,10 @@ def _minmax(I, self, args, kw, fr, site):
     if len(args) == 2 and all(isinstance(a, (VInt, VBool)) for a in args):
         x, y = zint(_int(args[0], I)), zint(_int(args[1], I))
         ismin = site.startswith("call(min)")
+        if not fr.spec:
+            # case split instead of an if-then-else term: keeps later obligations linear
+            le = I.st.decide(x <= y)
+            return VInt(simp((x if le else y) if ismin else (y if le else x)))
         return VInt(simp(z3.If(x <= y, x, y) if ismin else z3.If(x >= y, x, y)))
     raise Unsupported("min/max of %s" % [I.type_name(a) for a in args])
 
